@@ -124,3 +124,55 @@ def m_ndict_items(interp, recv, argv, kwv):
         return VBag([Obj], lambda b: w.k2(t, keys[0], b), lambda b: VTuple([VOpaque(b, 'key'), VNDict(w, t, keys + (b,))]), note='items, level 2')
     return VBag([Node], lambda n: w.k3(t, keys[0], keys[1], n), lambda n: VTuple([VNode(n), VOpaque(w.cv(t, keys[0], keys[1], n), 'value')]),
                 note='items, level 3')
+
+
+# ---- all_time_respecting_paths (C13): the result of an assumed callee keyed by (first, last) pairs, and a local dict keyed by node pairs
+
+class TrpWorld(object):
+    """vocabulary of the assumed contract of time_respecting_paths(G, u, None, start, end, sample) for fixed other arguments:
+    K(u, k): k is a key of the result for source u;  last(k): the last node of the key (its first node is u);  pv(u, k): the value;
+    keyof(u, w): the key of source u whose last node is w (keys are (u, w) pairs: at most one per w)"""
+
+    def __init__(self):
+        self.K = fresh_fun('trp_key', Node, Obj, Bool)
+        self.last = fresh_fun('trp_last', Obj, Node)
+        self.pv = fresh_fun('trp_val', Node, Obj, Obj)
+        self.keyof = fresh_fun('trp_keyof', Node, Node, Obj)
+
+    def E(self, a, b):
+        return z3.And(self.K(a, self.keyof(a, b)), self.last(self.keyof(a, b)) == b)
+
+
+class VTrp(V):
+    kind = 'trp'
+
+    def __init__(self, w, u, n):
+        self.w, self.u, self.n = w, u, n          # n: its number of keys (z3 Int)
+
+
+def m_trp_items(interp, recv, argv, kwv):
+    from .loops import VBag
+    w, u = recv.w, recv.u
+    return VBag([Obj], lambda k: w.K(u, k), lambda k: VTuple([VOpaque(k, 'trpkey'), VOpaque(w.pv(u, k), 'value')]), note='items of the per-source result')
+
+
+class VPairMap(V):
+    """a local dict keyed by (node, node) tuples: has[a][b], val[a][b]"""
+    kind = 'pairmap'
+
+    def __init__(self, has=None, val=None):
+        self.has = has if has is not None else z3.K(Node, z3.K(Node, z3.BoolVal(False)))
+        self.val = val if val is not None else fresh('pm_val0', z3.ArraySort(Node, z3.ArraySort(Node, Obj)))
+
+    def havoc(self, name):
+        return VPairMap(fresh(name + '.has', z3.ArraySort(Node, z3.ArraySort(Node, Bool))), fresh(name + '.val', z3.ArraySort(Node, z3.ArraySort(Node, Obj))))
+
+
+def pairmap_setitem(interp, c, key, v):
+    if not (key.kind == 'tuple' and len(key.items) == 2 and all(x.kind == 'node' for x in key.items)):
+        raise Undecided('pair-keyed dict written with a key that is not a pair of nodes')
+    if v.kind != 'opaque' or v.z.sort() != Obj:
+        raise Undecided('pair-keyed dict written with a value of kind %s' % v.kind)
+    a, b = key.items[0].z, key.items[1].z
+    c.has = z3.Store(c.has, a, z3.Store(c.has[a], b, True))
+    c.val = z3.Store(c.val, a, z3.Store(c.val[a], b, v.z))
